@@ -38,7 +38,7 @@ SPEC = dict(
             I('form_ref_noft', 'h_form_ref', (1, 1, 1, 0, 1, 0, 0, 0), bound='form without FORM_TYPE (ignored)'),
             I('form_ref_1s_empty', 'h_form_empty_value', (), bound='FORM_TYPE + one text-single field with the empty value (regression for fix 13f5df9)'),
         ]),
-        dict(name='mgr', harness='h_mgr.cpp', tus=['src/base/QXmppDataForm.cpp', 'src/base/QXmppDiscoveryIq.cpp', 'src/base/QXmppIq.cpp', 'src/base/QXmppStanza.cpp', 'src/client/QXmppClient.cpp'],
+        dict(name='mgr', harness='h_mgr.cpp', tus=['src/base/QXmppDataForm.cpp', 'src/base/QXmppDiscoveryIq.cpp', 'src/base/QXmppIq.cpp', 'src/base/QXmppStanza.cpp', 'src/base/QXmppMucIq.cpp', 'src/client/QXmppClient.cpp'],
              models=MODELS + ['c20_mgr_models.c'], cxxdefs={}, loop_bounds={}, instances=[
             # n = (identities, features of the arbitrary info set returned by the cut capabilities(), node scenario)
             I('handle_info_nonode', 'h_handle_info', idless=False, n=(1, 2, 0), bound='info set with 1 identity and 2 features; query without node'),
@@ -46,6 +46,7 @@ SPEC = dict(
             I('handle_info_emptycap', 'h_handle_info', idless=False, n=(1, 2, 2), bound='info set with 1 identity and 2 features; node "b", empty capabilities node'),
             I('handle_info_foreign', 'h_handle_info', idless=False, n=(1, 2, 3), bound='node "ba" under capabilities node "ab": refused with item-not-found'),
             I('presence_caps_1_0', 'h_presence_caps', (1, 0), mem_gb=5, bound='info set with 1 identity; capabilities node 0..2 units'),
+            I('presence_caps_twice', 'h_presence_caps_twice', (1, 0), mem_gb=5, bound='two presences, capabilities() = info set A then B, 1 identity each (arbitrary, equal or different), no extension inserted/removed in between'),
             I('presence_caps_1_1', 'h_presence_caps', (1, 1), tiers=('thorough',), timeout_s=900, mem_gb=10, bound='info set with 1 identity and 1 feature'),
         ]),
     ],
